@@ -91,6 +91,8 @@ func runC11(c *eng.Ctx) {
 	dataLoadContextReducedOnce(c)
 	everyAtomGetsItsOwnSet(c)
 	pageBindingAndSequenceTogether(c)
+	dataLoadTasksCountedUpFront(c)
+	writableMemDBOnlyReplacedByANewOne(c)
 	memoryIndexScannedUnderLock(c)
 	compressBufferIsOwned(c)
 
